@@ -1,10 +1,13 @@
 // Sync linux
 
 use crate::prelude::*;
+#[cfg(pearl_verif)]
+use crate::verif::io::TapFile as StdFile;
 use bytes::{Bytes, BytesMut};
 use nix::errno::Errno;
 use nix::fcntl::FcntlArg;
 use std::sync::atomic::AtomicU64;
+#[allow(unused_imports)]
 use std::{
     os::unix::prelude::{AsRawFd, FileExt},
     time::SystemTime,
@@ -80,6 +83,8 @@ impl File {
     ) -> IOResult<R> {
         let len = c.len();
         let file_inner = self.inner.clone();
+        #[cfg(pearl_verif)]
+        crate::verif::point(crate::verif::Label::IoWrite).await;
         if Self::can_run_inplace(len) {
             Self::inplace_sync_call(move || {
                 let offset = file_inner.size.fetch_add(len, Ordering::SeqCst);
@@ -110,6 +115,8 @@ impl File {
 
     pub(crate) async fn write_append_all(&self, buf: Bytes) -> IOResult<()> {
         let file_inner = self.inner.clone();
+        #[cfg(pearl_verif)]
+        crate::verif::point(crate::verif::Label::IoWrite).await;
         if Self::can_run_inplace(buf.len() as u64) {
             Self::inplace_sync_call(move || {
                 let offset = file_inner.size.fetch_add(buf.len() as u64, Ordering::SeqCst);
@@ -127,6 +134,8 @@ impl File {
     pub(crate) async fn write_all_at(&self, offset: u64, buf: Bytes) -> IOResult<()> {
         debug_assert!(offset + buf.len() as u64 <= self.size());
         let file_inner = self.inner.clone();
+        #[cfg(pearl_verif)]
+        crate::verif::point(crate::verif::Label::IoWrite).await;
         if Self::can_run_inplace(buf.len() as u64) {
             Self::inplace_sync_call(move || file_inner.std_file.write_all_at(&buf, offset))
         } else {
@@ -152,6 +161,8 @@ impl File {
 
     pub(crate) async fn read_exact_at(&self, mut buf: BytesMut, offset: u64) -> IOResult<BytesMut> {
         let file_inner = self.inner.clone();
+        #[cfg(pearl_verif)]
+        crate::verif::point(crate::verif::Label::IoRead).await;
 
         Ok(if Self::can_run_inplace(buf.len() as u64) {
             Self::inplace_sync_call(move || file_inner.std_file.read_exact_at(&mut buf, offset).map(|_| buf))
@@ -164,6 +175,8 @@ impl File {
     pub(crate) async fn fsyncdata(&self) -> IOResult<()> {
         let file_inner = self.inner.clone();
         let size = self.size();
+        #[cfg(pearl_verif)]
+        crate::verif::point(crate::verif::Label::IoSync).await;
         Self::background_sync_call(
             move || {
                file_inner.std_file.sync_all()?;
@@ -218,6 +231,10 @@ impl File {
         F: FnOnce() -> R + Send + 'static,
         R: Send + 'static,
     {
+        #[cfg(pearl_verif)]
+        if crate::verif::active() {
+            return crate::verif::job(f).await;
+        }
         tokio::task::spawn_blocking(move || f())
             .await
             .expect("spawned blocking task failed")
@@ -228,11 +245,19 @@ impl File {
         F: FnOnce() -> R + Send + 'static,
         R: Send + 'static,
     {
+        #[cfg(pearl_verif)]
+        if crate::verif::active() {
+            return f();
+        }
         tokio::task::block_in_place(move || f())
     }
 
     fn can_run_inplace(len: u64) -> bool {
         use tokio::runtime::{Handle, RuntimeFlavor};
+        #[cfg(pearl_verif)]
+        if let Some(inplace) = crate::verif::io_inplace(len) {
+            return inplace;
+        }
         len <= MAX_SYNC_OPERATION_SIZE as u64
             && Handle::current().runtime_flavor() != RuntimeFlavor::CurrentThread
     }
@@ -241,7 +266,13 @@ impl File {
         path: impl AsRef<Path>,
         setup: impl Fn(&mut OpenOptions) -> &mut OpenOptions,
     ) -> IOResult<Self> {
+        #[cfg(pearl_verif)]
+        let _external = crate::verif::external_section();
+        #[cfg(pearl_verif)]
+        let probe = crate::verif::io::tap_open(path.as_ref())?;
         let file = setup(&mut OpenOptions::new()).open(path.as_ref()).await?;
+        #[cfg(pearl_verif)]
+        crate::verif::io::tap_open_done(probe);
 
         if Self::advisory_write_lock_file(file.as_raw_fd()) == LockAcquisitionResult::AlreadyLocked
         {
@@ -257,6 +288,8 @@ impl File {
         let synced_size = AtomicU64::new(size);
         let size = AtomicU64::new(size);
         let std_file = file.try_into_std().expect("tokio file into std");
+        #[cfg(pearl_verif)]
+        let std_file = StdFile::new(std_file);
 
         let file = Self {
             inner: Arc::new(FileInner { 
